@@ -61,7 +61,7 @@ func RunAllocBound(w *World, r *Report, br *boundsRun, fns []*ssa.Function) {
 			how := ""
 			cands := map[atom]bool{}
 			for a := range n.t {
-				if a.k == aLen {
+				if a.k == aLen || isMapLen(a) {
 					cands[a] = true
 				}
 			}
@@ -78,7 +78,7 @@ func RunAllocBound(w *World, r *Report, br *boundsRun, fns []*ssa.Function) {
 			}
 			for _, f := range p.factsAt(b) {
 				for a := range f.e.t {
-					if a.k == aLen || isSize(a) {
+					if a.k == aLen || isSize(a) || isMapLen(a) {
 						cands[a] = true
 					}
 				}
@@ -115,3 +115,10 @@ func RunAllocBound(w *World, r *Report, br *boundsRun, fns []*ssa.Function) {
 	r.Floor("allocbound", 40)
 }
 
+
+
+// isMapLen: the atom is the length of a map in memory.
+func isMapLen(a atom) bool {
+	mv, ok := a.v.(*memVal)
+	return ok && a.k == aVal && len(mv.key) > 3 && mv.key[:3] == "ML@"
+}
